@@ -175,6 +175,7 @@ def explore(job):
     base, seed, tier = job["base"], job["seed"], job["tier"]
     only = job.get("only")
     rng = random.Random(core.h64(seed, "torn"))
+    ticks0 = simfs.TICKS[0]
     fs0 = simfs.SimFS(ROOT, bufsize=base["bufsize"])
     refd = run_driver(base, fs0, False)
     j = fs0.journal
@@ -260,6 +261,7 @@ def explore(job):
                                             phase=phase(j, k, torn, base["strategy"])), "detail": detail,
                                 "chain": [[k, torn]], "nit": base["nit"]})
     out["unique_states"] = len(seen)
+    out["fs_operations"] = simfs.TICKS[0] - ticks0
     killable = [c for c in allcuts if c[0] < len(j)]
     if base.get("nranks", 1) == 1:
         for (k, torn) in rng.sample(killable, min(2 if tier == "quick" else 4, len(killable))):
@@ -282,6 +284,8 @@ def bases_for(tier, seed):
         for ns in (0, 2):
             for tr in (False, True):
                 bases.append(dict(SIMPLE, model="nl3", nit=3, strategy=strat, n_samples=ns, transitions=tr))
+    bases.append(dict(SIMPLE, model="nl3", nit=2, n_samples=2, strategy="all", nranks=2, sched_seed=11))
+    bases.append(dict(SIMPLE, model="lin2", nit=2, n_samples=1, strategy="latest", nranks=3, sched_seed=12))
     bases.append(dict(SIMPLE, model="nl3", nit=4, n_samples=2, fresh="only0"))
     bases.append(dict(SIMPLE, model="nl3", nit=4, n_samples=1, fresh="alt", strategy="latest"))
     while len(bases) < n:
@@ -388,6 +392,8 @@ def main(argv):
         "exhaustive_note": "crash points of each base run are enumerated exhaustively (every journal boundary, i.e. "
                            "before/after every creat/write/close/unlink/rename/mkdir, + torn writes); base runs are sampled",
         "fault_kinds_fired": {"kill_by_window": windows, "torn_writes": tot["torn"], "kill_chains": tot["chain_cuts"]},
+        "simulated_fs_operations": sum(r.get("fs_operations", 0) for r in results if isinstance(r, dict)),
+        "simulated_time_note": "the fake clock advances 1 s per seam operation; no verdict depends on time",
         "probes": {"resume_ok_states": tot["resumed_ok"], "restart_from_scratch": tot["restart_from_scratch"],
                    "insitu_cross_validated_cuts": tot["insitu_checked"]},
         "real_components": ["nifty.cl.optimize_kl, SampledKLEnergy, ResidualSampleList/SampleList save+load, pickle, numerics"],
